@@ -73,6 +73,59 @@ CLAIMED = {
          "contract-based deductive verification (govc WP over go/ssa, z3/cvc5)",
          "TagArg.Find/Has are used through abstract trusted contracts (ArgIn/ArgHas1; their bodies are C19's subject); "
          "reflectx.IsTypeImplement is trusted (A-REFLECT); Qualifier() is assumed pure (A-CALLBACK). " + TRUST),
+
+ "C01": ("other",
+         "Chain of contracts, each proved for arbitrary inputs: doGetComponent returns exactly what the registry currently answers and "
+         "creates nothing on a hit; populateComponent resolves each dependency through that lookup, in order (loop invariant "
+         "[injects-are-lookups], stable under nested creations by the rely R1/R4); Inject writes the resolved Meta's own Value into the "
+         "field (single: [single-sets-first]; slice: [slice-sets-all]) and records exactly the non-self candidates; doCreateComponent "
+         "publishes the early reference when initialization did not wrap ([unwrapped-publishes-early]); GetComponentByName returns the "
+         "current version's Raw. One clause ([no-stale-in-creation-holder]) is an open known finding (F-C03), so the level is 'other', not proof.",
+         "DESIGN.md section 5 C01 and factory layer",
+         "contract-based deductive verification (govc WP over go/ssa, z3/cvc5)",
+         "Stage A: each link is proved; the composition 'every holder sees the published instance' additionally relies on assumptions listed "
+         "in the evidence (post-processor pipeline leaves component properties narrowed and well-formed, substituted components stay assignable, "
+         "factory wiring stable between closure creation and callback). NewMeta/GetProperties are trusted (reflection scan, C11). " + TRUST),
+ "C02": ("proof",
+         "No creation re-enters a name on the stack: the registry's precondition [not-creating] is an obligation at doGetComponent's only "
+         "call of GetSingletonOrCreateByFactory, discharged from the invariant J (every name in creation is answerable) + the lookup "
+         "contract; a name in creation is answered by its early reference without creation ([in-creation-gets-early]); Inject never wires a "
+         "point to its own holder ([never-self]), reports self-only required points ([self-only]) and leaves optional ones untouched; all loops "
+         "are range loops. The creation callback closure is checked to refine the interface-level callback contract (behavioural subtyping).",
+         "DESIGN.md section 5 C02",
+         "contract-based deductive verification (govc WP over go/ssa, z3/cvc5)",
+         "Termination of the creation recursion is argued, not discharged: every nested creation marks a name that was not in creation "
+         "(proved), hence the stack depth is bounded by the number of distinct names (cardinality step outside SMT). 'Succeeds when no "
+         "post-processor substitutes' is covered only as: the stale-version error is unreachable when nothing wraps. " + TRUST),
+ "C03": ("other",
+         "doCreateComponent is verified clause by clause: wrapping is detected and a proxy Meta with the same name is exposed "
+         "([wrap-detected]); if the final version differs from the early reference, every recorded holder of the early/original version is "
+         "still in creation, otherwise start-up fails ([no-stale-finished-holder], with the loop invariant of the dependents scan); Inject "
+         "records the holder on the injected version ([records-holder]); getEarlyBeanReference wraps once. The remaining case - a holder that "
+         "is itself still in creation keeps the superseded version - is the open known finding F-C03 ([no-stale-in-creation-holder]).",
+         "DESIGN.md section 5 C03, section 6 F-C03",
+         "contract-based deductive verification (govc WP over go/ssa, z3/cvc5)",
+         "Known finding F-C03 is reported as KNOWN-FINDING and keeps the level at 'other'. Dependents' entries non-nil is a named site assumption. " + TRUST),
+ "C05": ("proof",
+         "Ghost typestate per component name; the obligations the container owes user callbacks are their preconditions: before-init "
+         "processors only on a populated component, AfterPropertiesSet only after all of them, Init after AfterPropertiesSet when present, "
+         "after-init processors only after the init methods; each processor exactly once in slice order (loop invariants over the ghost "
+         "traces); InitializeComponent reaches 'ready' on success; doCreateComponent populates strictly before initializing; Refresh creates "
+         "exactly the non-lazy definitions in ascending name order ([eager-all-created], [only-non-lazy-definitions]).",
+         "DESIGN.md section 5 C05",
+         "contract-based deductive verification (govc WP over go/ssa, z3/cvc5)",
+         "'Exactly once per start' holds per creation attempt (a failed lazy creation that is retried re-runs init methods); 'dependencies "
+         "first' is proved as [published-or-on-stack] (a dependency that is not published is on the creation stack); what user Init methods "
+         "observe inside dependencies is not covered. " + TRUST),
+ "C10": ("proof",
+         "Functional determinism clauses: Refresh creates in strictly ascending name order whatever order GetMetas enumerates (its contract "
+         "leaves the order unconstrained), proved via the sort contract; filterDependencies' result is a function of the candidate SET "
+         "except within genuinely tied candidates ([unique-primary-wins], [unique-unnamed-wins], [tie-stays-in-best-class]) and never selects "
+         "the holder itself ([self-never-beats-other], the repaired F-C10).",
+         "DESIGN.md section 5 C10",
+         "contract-based deductive verification (govc WP over go/ssa, z3/cvc5)",
+         "Commutativity of two different post-processors with equal class and Order, the order of elements inside an injected slice, and the "
+         "goroutine schedules of the scanning phase (C20) are not covered. " + TRUST),
 }
 
 NOT_APPLICABLE = {
